@@ -637,9 +637,50 @@ def int_case(ctx, cfg, start, end):
     run_int(ctx, cfg, start, end)
 
 
+def multi_dimension_case(ctx, name, seed):
+    """history: ONE object of a class that is constructed without a dimension serves points of several dimensions in turn (2, 3, 2, 4, 1); single-point, batch
+    and vectorised values equal those of a fresh object, and the analytic integral still equals the quadrature of the point evaluation in each dimension
+    (missed seed C12_8: a dimension-dependent normalisation stored on first use)"""
+    import sparseSpACE.Function as F
+    make = {"FunctionExpVar": lambda: F.FunctionExpVar(), "ConstantValue": lambda: F.ConstantValue(2.5)}[name]
+    rng = random.Random("%s|multidim|%s" % (seed, name))
+    f = make()
+    site = "sparseSpACE.Function:%s.eval" % name
+    for k, d in enumerate((2, 3, 2, 4, 1)):
+        pts = [tuple(rng.uniform(0.05, 0.95) for _ in range(d)) for _ in range(4)]
+        fresh = make()
+        with ctx.guard("B.eval.consistent", site, "multi-dimension-raises"):
+            with quiet():
+                want = [np.asarray(fresh.eval(p), dtype=float).reshape(-1) for p in pts]
+                got_single = [np.asarray(f(p), dtype=float).reshape(-1) for p in pts[:2]]
+                got_batch = np.asarray(f(list(pts)), dtype=float)
+                got_vec = np.asarray(f.eval_vectorized(np.array(pts)), dtype=float).reshape(len(pts), -1)
+            ok = all(np.allclose(g, w, rtol=1e-12, atol=0) for g, w in zip(got_single, want)) and \
+                all(np.allclose(got_batch[i], want[i], rtol=1e-12, atol=0) and np.allclose(got_vec[i], want[i], rtol=1e-12, atol=0) for i in range(len(pts)))
+            ctx.check("B.eval.consistent", ok, site, "one-object-several-dimensions", "%s used in dimension %d after other dimensions: values %s, a fresh object gives %s"
+                      % (name, d, got_batch[:2].tolist(), [w.tolist() for w in want[:2]]))
+            if k == 1:
+                f.reset_dictionary()
+        start, end = [0.1] * d, [0.9] * d
+        with ctx.guard("B.int.analytic", "sparseSpACE.Function:%s.getAnalyticSolutionIntegral" % name, "multi-dimension-raises"):
+            with quiet():
+                ana = float(np.asarray(f.getAnalyticSolutionIntegral(list(start), list(end)), dtype=float).reshape(-1)[0])
+            xs, ws = np.polynomial.legendre.leggauss(12)
+            total = 0.0
+            for idx in itertools.product(range(12), repeat=d):
+                p = tuple(start[j] + 0.4 * (xs[i] + 1.0) for j, i in enumerate(idx))
+                w = float(np.prod([ws[i] * 0.4 for i in idx]))
+                total += w * float(np.asarray(f.eval(p), dtype=float).reshape(-1)[0])
+            ctx.check("B.int.analytic", abs(ana - total) <= 1e-6 * max(1.0, abs(total)), "sparseSpACE.Function:%s.getAnalyticSolutionIntegral" % name,
+                      "one-object-several-dimensions", "%s in dimension %d (object used in other dimensions before): analytic %r, quadrature of eval %r" % (name, d, ana, total))
+
+
 # ----------------------------------------------------------------------------------------------------------------
 def run(ctx):
     C = configs()
+    for name in ("FunctionExpVar", "ConstantValue"):
+        ctx.case({"kind": "multidim", "cls": name}, nontrivial=True)
+        multi_dimension_case(ctx, name, ctx.seed)
     core = [c for c in C if c["core"]]
     quick = ctx.quick()
     seed = ctx.seed
@@ -699,6 +740,8 @@ def run(ctx):
 
 
 def replay(ctx, case):
+    if case.get("kind") == "multidim":
+        return multi_dimension_case(ctx, case["cls"], ctx.seed)
     cfg = config_by_name(case["cfg"])
     if case["kind"] == "seq":
         run_seq(ctx, cfg, case["ops"], case["seed"])
